@@ -10,8 +10,11 @@ onnx.reference evaluation of source vs extracted graph) that searches a concrete
 MODEL (Model.v)
   node = Node id (inputs: list (option vid)) (outputs) (graphs held by GRAPH/GRAPHS attributes, in order);
   graph = Graph id inputs initializers nodes outputs (nested inductive; Struct.v has the induction principle).
-  value.graph / producer() / is_initializer() / name are functions owner/prod/isinit/name — in the case
-  files a table *observed on the implementation* (pointer semantics, not re-derived from the structure).
+  value.graph / producer() / is_initializer() / name are functions owner/prod/isinit/name. Since the deepening
+  round the table the model runs on is DERIVED inside Coq from the graph structure (Model.d_owner/d_prod/d_init/
+  d_heap; only the name codes are generator data); the accessors observed on the implementation are compared with
+  it on every generated graph (stream "accessor_pin"), so a wrong accessor cannot mask an extractor error
+  (checked with an is_initializer() mutant: pin broken + concrete extract violations).
   * collect_external, node_caps  = _collect_all_external_values per GRAPH/GRAPHS attribute (set order: a
     `shuffle` parameter; theorems hold for every order).
   * find_step/find_loop/find_bounded = _find_subgraph_bounded_by_values as written: value stack (last
@@ -67,6 +70,13 @@ THEOREMS (all closed under the global context, no axioms)
                         (Function: listed input initializers not recorded; GraphView: no ownership check, a needed
                         node outside the view raises ValueError/KeyError; Graph/Function: by-object refs must
                         belong to the graph; names must be known to create_value_mapping).
+  C18_derived_accessors under the decidable structural well-formedness wf_b (distinct node/graph ids, every
+                        definition site agrees with the derived accessors; evaluated in Coq on every case) d_owner /
+                        d_prod / d_init are exactly "graph defining v" / "node outputting v" / "in an initializer list".
+  C18_captures_exact_structural  C18_captures_exact on the structure alone: wf_b + every nested read defined in the
+                        graph or an enclosing one (sscoped_n) => analyze on the derived value.graph maps S to
+                        {v | read in S or deeper, not defined in S or deeper}, all depths.
+  C18_structure_gives_ssa  NoDup / lookup / SSA hypotheses of C18_semantics follow from wf_b for the derived producer.
   C18_independent (DESIGN) is C13's theorem; here it is checked by the oracle only (no shared Graph/Node/
   Value object between result and source).
 
@@ -590,8 +600,8 @@ def source_values(B: Built, feed_seed: int) -> dict | None:
     rng = random.Random(feed_seed)
     feeds = {}
     for v in B.root.inputs:
-        if v.is_initializer():
-            continue        # input with a default: the source runs on the default, which is what extraction carries along
+        if B.spec["values"][str(B.vid_of[id(v)])]["init"]:
+            continue        # input with a default (decided from the structure, not from the accessor): the source runs on the default, which is what extraction carries along
         if v.type.dtype == ir.DataType.BOOL:
             feeds[v.name] = np.array(rng.random() < 0.5)
         else:
@@ -893,20 +903,29 @@ def case_file(groups: list[dict]) -> str:
         parts.append(f"Definition g{k} : graph := {_cgraph(gr['spec']['root'])}.\n")
         parts.append(f"Definition u{k} : list node := rec_nodes_g g{k}.\n")
         parts.append(f"Definition h{k} : heap := {_cheap(gr['heap'])}.\n")
+        # the table the model runs on is DERIVED from the structure (names are generator data); h{k} — the
+        # accessors observed on the implementation — is only compared with it (accessor pin)
+        parts.append(f"Definition d{k} : heap := d_heap g{k} "
+                     + clist("(%d, %d)" % (v, nm) for v, (_, _, _, nm) in gr["heap"]) + " "
+                     + clist(str(v) for v, _ in gr["heap"]) + ".\n")
         rows = ["(%s, %s, %s, %s)" % (_csrc(k, c["src"]), clist(_cref(gr["B"], r) for r in c["inputs"]),
                                       clist(_cref(gr["B"], r) for r in c["outputs"]), _cobs(o))
                 for c, o in gr["cuts"]]
         parts.append(f"Definition c{k} : list (source * list ref * list ref * res obs) :=\n  "
                      + clist(rows).replace("; (SRC", ";\n  (SRC") + ".\n")
-    parts.append("Eval vm_compute in " + clist(f"failing (agree_extract h{k} u{k}) c{k}" for k in range(len(groups))) + ".\n")
+    parts.append("Eval vm_compute in " + clist(f"failing (agree_extract d{k} u{k}) c{k}" for k in range(len(groups))) + ".\n")
     parts.append("Eval vm_compute in (failing (fun b : bool => b) "
-                 + clist(f"agree_analyze h{k} g{k} {_cusages(gr['an'])}" for k, gr in enumerate(groups)) + ").\n")
+                 + clist(f"agree_analyze d{k} g{k} {_cusages(gr['an'])}" for k, gr in enumerate(groups)) + ").\n")
+    parts.append("Eval vm_compute in (failing (fun b : bool => b) "
+                 + clist(f"heap_eqb d{k} h{k}" for k in range(len(groups))) + ").\n")
+    parts.append("Eval vm_compute in (failing (fun b : bool => b) "
+                 + clist(f"wf_b g{k}" for k in range(len(groups))) + ").\n")
     return "".join(parts)
 
 
-def parse_case_output(out: str, ngroups: int) -> tuple[list[list[int]], list[int]]:
+def parse_case_output(out: str, ngroups: int):
     chunks = re.split(r"^\s*=\s", out, flags=re.M)[1:]
-    if len(chunks) != 2:
+    if len(chunks) != 4:
         raise RuntimeError("unexpected case file output:\n" + out[-3000:])
 
     def strip_type(s):
@@ -919,7 +938,9 @@ def parse_case_output(out: str, ngroups: int) -> tuple[list[list[int]], list[int
         raise RuntimeError(f"expected {ngroups} groups, parsed {len(ext)}:\n" + out[-2000:])
     b = strip_type(chunks[1])
     an = [int(x) for x in re.findall(r"\d+", b)]
-    return ext, an
+    pins = [int(x) for x in re.findall(r"\d+", strip_type(chunks[2]))]
+    notwf = [int(x) for x in re.findall(r"\d+", strip_type(chunks[3]))]
+    return ext, an, pins, notwf
 
 
 # =========================================================================== driving one graph
@@ -970,7 +991,13 @@ def run_groups(ck, groups: list[dict], tag: str) -> list[dict]:
         chunk = groups[fi * per:(fi + 1) * per]
         if rc != 0:
             raise RuntimeError(f"case file {files[fi][0]} did not compile:\n{out[-3000:]}")
-        ext, an = parse_case_output(out, len(chunk))
+        ext, an, pins, notwf = parse_case_output(out, len(chunk))
+        ck.hist("accessor_pin", "graphs_compared", len(chunk))
+        ck.hist("accessor_pin", "values_compared", sum(len(g["heap"]) for g in chunk))
+        ck.hist("structural_wf_b", "true", len(chunk) - len(notwf))
+        ck.hist("structural_wf_b", "false", len(notwf))
+        for k in pins:
+            mism.append({"what": "accessors", "spec": chunk[k]["spec"], "impl": chunk[k]["heap"]})
         for k, idxs in enumerate(ext):
             for j in idxs:
                 c, o = chunk[k]["cuts"][j]
@@ -1126,13 +1153,13 @@ def run(ck) -> None:
     ck.trust("Coq 8.16.1 kernel (coqc; vm_compute in case files; no native_compute)",
              "harness/props/c18.py (graph generator, builder, canonical observation of extract / "
              "analyze_implicit_usage, Coq literal printer, brute-force oracle)",
-             "hand-written model coq/theories/C18/Model.v, tied by differential execution only",
+             "hand-written model coq/theories/C18/Model.v, tied by differential execution only (the model's value "
+             "table is derived from the structure inside Coq; the implementation's accessors are pinned against it)",
              "modelled not verified: list.sort by node index modelled as a filter of the original node list; "
              "Python set iteration order (theorems hold for every order); the value-copying part of the cloner "
              "(only its definedness checks are modelled); onnx.reference.ReferenceEvaluator (oracle only)")
     ck.assumptions += ["onnx / numpy as installed in /venv",
-                       "value.graph / value.producer() / is_initializer() / name are read from the implementation "
-                       "into the model's value table (the model does not re-derive them from the structure)"]
+                       "value names (name codes) are generator data passed to the model"]
     ck.coverage["rule"] = ("generated graphs (numeric: Add/Mul/Relu/Neg/Identity/Clip/If; structural: also multi-output, "
                            "bodies with inputs, GRAPHS attributes; malformed stream: unsorted, detached values, duplicate/"
                            "empty names, scope leaks) x cuts (all input-subsets x 1-2 outputs for graphs with <= 6 top-level "
@@ -1212,7 +1239,8 @@ def run(ck) -> None:
         for m in mism[:20]:
             bad = judge_case(m["spec"], m.get("cut"))
             if bad:
-                report_oracle_failure(ck, m["spec"], {"what": m["what"], "cut": m.get("cut"), "failures": bad},
+                report_oracle_failure(ck, m["spec"], {"what": m["what"] if m.get("cut") else "analyze",
+                                                      "cut": m.get("cut"), "failures": bad},
                                       {"found_by": "diverging case"})
                 break
         else:
